@@ -449,7 +449,11 @@ pub fn mutate(src: &str, other: &str, t: &mut Tape) -> (String, &'static str) {
     (toks.concat(), name)
 }
 
-const STRETCH: [&str; 16] = [
+const STRETCH: [&str; 20] = [
+    "-9223372036854775808",
+    "-9223372036854775807",
+    "9223372036854775806",
+    "-1",
     "9223372036854775807",
     "9223372036854775808",
     "-9223372036854775809",
